@@ -13,8 +13,8 @@
     What is abstract (inputs of the model, produced by trusted library code in the harness):
       - [pmt] = mime.ParseMediaType, an uninterpreted function (media type, parameter names, error);
       - the URL: [rq_path] = r.URL.Path, [rq_query] = the keys of r.URL.Query() (net/url);
-      - the body: [BNone] when jsoniter finds no syntactically valid first JSON value (empty body,
-        syntax error), otherwise the tree of that first value;
+      - the body: [BNone] when it is not exactly one JSON value, otherwise its tree with the members of
+        every object in textual order, repeated names included (JsonApiBytes.v reads the bytes);
       - the application: per resource type the presence of Get/Patch/Create/Delete and their
         outcomes as functions, attribute and relationship resolvers as functions of the resource
         value (a number standing for the application's T);
